@@ -223,6 +223,8 @@ def run_case(case, ctx):
       kv = rng.normal(0, 0.8, size=k.shape)
     elif pattern == "bias_dominant":
       kv = rng.normal(0, 0.05, size=k.shape)
+      if rng.random() < 0.5 and k.shape[-1] > 1 and type(l).__name__ != "QDepthwiseConv2D":
+        kv[..., 0] = 0.0          # a pruned filter: its output is the bias alone
     elif pattern == "saturated_pos":
       kv = np.full(k.shape, 64.0)
     elif pattern == "saturated_neg":
@@ -233,6 +235,11 @@ def run_case(case, ctx):
     if len(ws) > 1:
       new.append((rng.normal(0, 1.0, size=ws[1].shape) if pattern == "random" else rng.choice([-64.0, 64.0], size=ws[1].shape)).astype(np.float32)
                  if pattern != "bias_dominant" else rng.choice([-0.5, 0.5, 1.0], size=ws[1].shape).astype(np.float32))
+    if pattern == "bias_dominant" and len(new) > 1 and kv.ndim >= 2 and not np.any(kv[..., 0]) and new[1].shape[0] == kv.shape[-1]:
+      # the pruned filter carries the largest bias of the layer (saturating the bias quantizer), the others a small one
+      b = np.full(new[1].shape, 0.0625, np.float32) * rng.choice([-1.0, 1.0], size=new[1].shape).astype(np.float32)
+      b[0] = 64.0 * rng.choice([-1.0, 1.0])
+      new[1] = b
     l.set_weights(new)
   # ---- inputs from the source lattice
   xshape = tuple(spec["input"])
@@ -372,7 +379,11 @@ def run_case(case, ctx):
         top = pos * hi_ + neg * lo_ + b if True else None
         bot = neg * hi_ + pos * lo_ + b
         correct = float(np.max(np.maximum(np.abs(top), np.abs(bot))))
-        mech = "bias_term_mishandled" if (l.use_bias and 2.0 ** np.ceil(np.log2(max(correct, 1e-300))) >= m * (1 - 1e-6)) else "other"
+        # F-C18-2 multiplies the bias by the input-range terms: it can only shrink / drop the bias when one side of
+        # the range has magnitude below 1 (or is absent); with |x_min| >= 1 and x_max >= 1 the bias is over-counted
+        shrinkable = (hi_ < 1.0) or (lo_ > -1.0)
+        mech = "bias_term_mishandled" if (l.use_bias and shrinkable and
+                                          2.0 ** np.ceil(np.log2(max(correct, 1e-300))) >= m * (1 - 1e-6)) else "other"
         ctx.violation({"kind": "estimator_below_observed_output", "layer": type(l).__name__,
                        "bias": bool(l.use_bias), "mechanism": mech},
                       "%s: analyze_accumulator = %d bits but |output| reaches %g for inputs in %r (a bound adding the bias after the range scaling gives %g)" % (
